@@ -79,6 +79,8 @@ func (c *checker) replay() {
 			what, detail, err = c.replayAlias(&rec)
 		case "escape":
 			what, detail, err = c.replayEscape(&rec)
+		case "ghost":
+			what, detail, err = c.replayGhost(&rec)
 		case "multi":
 			var blocks [][]string
 			for _, b := range append(append([]string{}, rec.History...), rec.Prog) {
